@@ -305,6 +305,50 @@ def search(item):
 
 
 # ---------------------------------------------------------------- adversarial
+def hb_close_case(item):
+    """A peer that asks for a heartbeat, writes its last data, sends
+    close_notify and closes its socket has done everything right: the other
+    side reads all the data and then end-of-data, although its heartbeat
+    answer can no longer be delivered."""
+    cfg, who, n, seed = item
+    st, sc, out = setup(cfg, seed)
+    name = "%s/%s/%d" % (cfg[0], who, n)
+    if st is None:
+        return name, None, []
+    pair = st.pair
+    pair.world.epipe_after_peer_close = True
+    other = "S" if who == "C" else "C"
+    ep = pair.ep(who)
+    if not (ep.heartbeat_supported and ep.heartbeat_can_send):
+        return name, None, []
+    fails = []
+    o = W.run_gen(pair.world, who, ep.write_heartbeat(bytearray(b"last"), 16))
+    data = bytes((i * 13 + 7) & 0xff for i in range(n))
+    w = pair.write(who, data)
+    c = pair.close(who)
+    if o.status != "ok" or w.status != "ok" or c.status != "ok":
+        return name, ("sender-failed",), []
+    got = b""
+    last = None
+    for _ in range(n + 5):
+        last = pair.read(other, None, 1)
+        if last.status != "ok" or not last.value:
+            break
+        got += bytes(last.value)
+    if got != data:
+        fails.append("%d of %d bytes delivered before %r" % (
+            len(got), n, last.sig()[:3]))
+    elif last.status != "ok":
+        fails.append("data delivered, then %r instead of end-of-data" % (
+            last.sig()[:3],))
+    sess = pair.ep(other).session
+    if sess is not None and not sess.resumable and \
+            pair.ep(other).session.sessionID:
+        fails.append("orderly close of the peer left the session "
+                     "non-resumable")
+    return name, ("ok" if not fails else "fail",), fails
+
+
 def adversarial_cases():
     ku0 = b"\x18\x00\x00\x01\x00"
     ku1 = b"\x18\x00\x00\x01\x01"
@@ -488,6 +532,19 @@ def run(res, tier, seed):
                           {"case": r["name"], "fail": f},
                           {"adversarial": r["name"]})
     res.section("adversarial", cases=len(adv), executions=na)
+    hitems = [(cfg, who, n, seed) for cfg in cfgs for who in ("C", "S")
+              for n in (0, 1, 760)]
+    nh = 0
+    for (name, sig, fails) in pmap(hb_close_case, hitems):
+        if sig is None:
+            continue
+        nh += 1
+        res.count()
+        res.outcome(("hb-close",) + tuple(sig))
+        for f in fails:
+            res.violation({"part": "heartbeat-then-close", "what": f[:40]},
+                          {"case": name, "fail": f}, {"hb_close": name})
+    res.section("heartbeat_then_close", executions=nh)
     # post-handshake authentication: the chain is recorded only after the
     # client's CertificateVerify *and* Finished verify (corruption of each
     # message of the client's flight, CertificateVerify omitted)
